@@ -5,19 +5,19 @@
 EXTENDS PlanCatalog, Json
 CONSTANT TraceFile
 Trace == ndJsonDeserialize(TraceFile)
-VARIABLES l, viol, cid, want, req, scope, dead
-tvars == <<cvars, l, viol, cid, want, req, scope, dead>>
+VARIABLES l, viol, cid, want, req, scope, dead, dia
+tvars == <<cvars, l, viol, cid, want, req, scope, dead, dia>>
 Ev == Trace[l]
 Is(e) == l <= Len(Trace) /\ Ev.ev = e /\ l' = l + 1
 ToSet(s) == { s[k] : k \in DOMAIN s }
 ToChecks(s) == { <<s[k][1], s[k][2]>> : k \in DOMAIN s }
-FKSet(s) == { <<s[k][1], s[k][2], s[k][3], s[k][4]>> : k \in DOMAIN s }
+FKSet(s) == { <<s[k][1], s[k][2], s[k][3], s[k][4], [i \in DOMAIN s[k][5] |-> s[k][5][i]]>> : k \in DOMAIN s }
 
-TInit == /\ Start({}, {}) /\ l = 1 /\ viol = {} /\ cid = 0 /\ want = [tables |-> {}, fks |-> {}] /\ req = "none" /\ scope = "" /\ dead = FALSE
+TInit == /\ Start({}, {}) /\ l = 1 /\ viol = {} /\ cid = 0 /\ want = [tables |-> {}, fks |-> {}] /\ req = "none" /\ scope = "" /\ dead = FALSE /\ dia = ""
 Reset == /\ Is("reset")
          /\ tables' = ToSet(Ev.start.tables) /\ fks' = FKSet(Ev.start.fks) /\ checks' = {}
          /\ created' = [t \in Tables |-> 0] /\ dropped' = [t \in Tables |-> 0]
-         /\ cid' = Ev.c /\ want' = [tables |-> ToSet(Ev.want.tables), fks |-> FKSet(Ev.want.fks)] /\ req' = Ev.req /\ scope' = Ev.schema /\ dead' = FALSE
+         /\ cid' = Ev.c /\ want' = [tables |-> ToSet(Ev.want.tables), fks |-> FKSet(Ev.want.fks)] /\ req' = Ev.req /\ scope' = Ev.schema /\ dead' = FALSE /\ dia' = Ev.dialect
          /\ UNCHANGED viol
 \* C16: the qualifiers a statement carries.  req = "none": no qualifier requested on a schema-scoped plan -> no qualifier at all;
 \* req = "": explicitly empty -> none; otherwise exactly the requested one; the scoped schema's own name never appears.
@@ -32,26 +32,29 @@ Consume(act, name) ==
   ELSE IF ENABLED act THEN act /\ UNCHANGED <<viol, dead>>
   ELSE /\ Flag(name) /\ dead' = TRUE /\ UNCHANGED cvars
 TCreate == /\ Is("create") /\ Consume(CreateTable(Ev.t, FKSet(Ev.inline)), "CreateRejected")
-           /\ UNCHANGED <<cid, want, req, scope>>
-TAddFK  == /\ Is("addfk") /\ Consume(AddFK(Ev.t, Ev.p, Ev.n, Ev.d), "AddFKRejected") /\ UNCHANGED <<cid, want, req, scope>>
-TDropFK == /\ Is("dropfk") /\ Consume(DropFK(Ev.t, Ev.n), "DropFKRejected") /\ UNCHANGED <<cid, want, req, scope>>
-TDrop   == /\ Is("drop") /\ Consume(DropTable(Ev.t), "DropRejected") /\ UNCHANGED <<cid, want, req, scope>>
-TAddChk == /\ Is("addcheck") /\ Consume(AddCheck(Ev.t, Ev.n), "AddCheckRejected") /\ UNCHANGED <<cid, want, req, scope>>
-TDropChk == /\ Is("dropcheck") /\ Consume(DropCheck(Ev.t, Ev.n), "DropCheckRejected") /\ UNCHANGED <<cid, want, req, scope>>
-TAddIdx == /\ Is("addindex") /\ Consume(AddIndex(Ev.t, Ev.k), "AddIndexRejected") /\ UNCHANGED <<cid, want, req, scope>>
-TOther  == /\ Is("other") /\ Consume(Other(Ev.t), "OtherOnMissingTable") /\ UNCHANGED <<cid, want, req, scope>>
+           /\ UNCHANGED <<cid, want, req, scope, dia>>
+TAddFK  == /\ Is("addfk") /\ Consume(AddFK(Ev.t, Ev.p, Ev.n, Ev.d, [i \in DOMAIN Ev.cols |-> Ev.cols[i]]), "AddFKRejected") /\ UNCHANGED <<cid, want, req, scope, dia>>
+TDropFK == /\ Is("dropfk") /\ Consume(DropFK(Ev.t, Ev.n), "DropFKRejected") /\ UNCHANGED <<cid, want, req, scope, dia>>
+TDrop   == /\ Is("drop") /\ Consume(DropTable(Ev.t), "DropRejected") /\ UNCHANGED <<cid, want, req, scope, dia>>
+TAddChk == /\ Is("addcheck") /\ Consume(AddCheck(Ev.t, Ev.n), "AddCheckRejected") /\ UNCHANGED <<cid, want, req, scope, dia>>
+TDropChk == /\ Is("dropcheck") /\ Consume(DropCheck(Ev.t, Ev.n), "DropCheckRejected") /\ UNCHANGED <<cid, want, req, scope, dia>>
+TAddIdx == /\ Is("addindex") /\ Consume(AddIndex(Ev.t, Ev.k), "AddIndexRejected") /\ UNCHANGED <<cid, want, req, scope, dia>>
+TDropCol == /\ Is("dropcol")
+            /\ Consume(IF dia = "mysql" THEN DropColumnMy(Ev.t, Ev.col) ELSE DropColumnPG(Ev.t, Ev.col), "DropColumnRejected")
+            /\ UNCHANGED <<cid, want, req, scope, dia>>
+TOther  == /\ Is("other") /\ Consume(Other(Ev.t), "OtherOnMissingTable") /\ UNCHANGED <<cid, want, req, scope, dia>>
 \* C16: a statement checked for its qualifiers only
 TQual   == /\ Is("qstmt")
            /\ IF dead \/ QualOK THEN UNCHANGED <<viol, dead>> ELSE Flag("Qualifier") /\ dead' = TRUE
-           /\ UNCHANGED <<cvars, cid, want, req, scope>>
+           /\ UNCHANGED <<cvars, cid, want, req, scope, dia>>
 \* a schema-level statement (CREATE/DROP/ALTER SCHEMA) is never part of a schema-scoped plan
 TSchema == /\ Is("schemastmt")
            /\ IF req = "realm" \/ dead THEN UNCHANGED <<viol, dead>> ELSE Flag("SchemaStatementInScopedPlan") /\ dead' = TRUE
-           /\ UNCHANGED <<cvars, cid, want, req, scope>>
+           /\ UNCHANGED <<cvars, cid, want, req, scope, dia>>
 \* the planner refused the change set: fine iff refusal was owed (changes spanning two schemas / a schema-level change)
 TReject == /\ Is("reject")
            /\ IF Ev.owed \/ dead THEN UNCHANGED viol ELSE Flag("PlannerError")
-           /\ dead' = TRUE /\ UNCHANGED <<cvars, cid, want, req, scope>>
+           /\ dead' = TRUE /\ UNCHANGED <<cvars, cid, want, req, scope, dia>>
 TEnd == /\ Is("end")
         /\ IF dead THEN UNCHANGED viol
            ELSE viol' = viol
@@ -59,8 +62,8 @@ TEnd == /\ Is("end")
                   \cup (IF ~Ev.checksmatter \/ checks = ToChecks(Ev.wantchecks) THEN {} ELSE {<<cid, "WrongEndChecks", l>>})
                   \cup (IF Once THEN {} ELSE {<<cid, "NotExactlyOnce", l>>})
                   \cup (IF Ev.mustreject THEN {<<cid, "CrossSchemaChangesPlanned", l>>} ELSE {})
-        /\ UNCHANGED <<cvars, cid, want, req, scope, dead>>
-TStep == Reset \/ TQual \/ TAddChk \/ TDropChk \/ TCreate \/ TAddFK \/ TDropFK \/ TDrop \/ TAddIdx \/ TOther \/ TSchema \/ TReject \/ TEnd
+        /\ UNCHANGED <<cvars, cid, want, req, scope, dead, dia>>
+TStep == Reset \/ TQual \/ TAddChk \/ TDropChk \/ TCreate \/ TAddFK \/ TDropFK \/ TDrop \/ TAddIdx \/ TDropCol \/ TOther \/ TSchema \/ TReject \/ TEnd
 TNext == /\ TStep
          /\ (l' = Len(Trace) + 1) => PrintT(<<"VIOLS", ToJson(viol')>>)
 TSpec == TInit /\ [][TNext]_tvars
